@@ -72,6 +72,8 @@ def _calls():
         "rel-base-2010": lambda: P("in 2 days", languages=["en"], settings={"RELATIVE_BASE": datetime(2010, 6, 1, 8, 0)}),
         "default-tz-en": lambda: P("March 3, 2011 10:00 EST"),
         "default-es": lambda: P("12 abril 2014"),
+        "nospace-12": lambda: P("201512311230", languages=["en"], settings={"PARSERS": ["no-spaces-time"]}),
+        "nospace-14": lambda: P("20140101125959", languages=["en"], settings={"PARSERS": ["no-spaces-time"]}),
         "default-fr-tz": lambda: P("10 janvier 2020 10:00 PST"),
         "default-fr": lambda: P("12 mars 2021"),
         "fr-S-other": lambda: P("03/04/2016", languages=["fr"], settings=dict(S)),
@@ -104,12 +106,13 @@ PAIRS = [
     ("search-vs-default-fr-parse", "search-en", "fr-default"),
     ("equal-settings-that-matter", "order-DMY", "order-DMY-other"),
     ("default-parser-two-strings-not-in-the-first-language", "default-fr-tz", "default-fr"),
+    ("no-spaces-parser-first-use", "nospace-12", "nospace-14"),
 ]
 QUICK_WARM = ["same-config-same-language", "same-call-twice", "settings-differ-irrelevant-field", "shared-settings-dict-fr-vs-en",
               "skip-tokens-differ", "parse-vs-search", "relative-base-differs",
               "same-config-fr-custom-settings", "default-parser-two-strings-not-in-the-first-language"]
 QUICK_WARM_REV = ["relative-base-differs", "same-config-same-language", "settings-differ-irrelevant-field"]
-QUICK_COLD = ["shared-settings-dict-fr-vs-en", "relative-base-differs", "equal-settings-that-matter"]
+QUICK_COLD = ["shared-settings-dict-fr-vs-en", "relative-base-differs", "equal-settings-that-matter", "no-spaces-parser-first-use"]
 THOROUGH_COLD_ALL = ["shared-settings-dict-fr-vs-en", "same-config-same-language", "skip-tokens-differ"]
 
 _CALLS = None
